@@ -416,7 +416,7 @@ def opt(x):
 def _run_route(fn):
     from lib import impl
     try:
-        with impl.time_limit(3):
+        with impl.time_limit(5):
             return ("ok", fn())
     except (TypeError, ValueError, IndexError) as e:
         return ("exc", type(e).__name__)
@@ -907,7 +907,9 @@ def run(ctx):
     t1 = time.time()
     outs = common.model_run(mcases)
     t2 = time.time()
-    nx, xok, xlog = common.coq_crosscheck("C09", mcases, outs, ctx.rng, sample=24 if ctx.quick() else 150)
+    small = [i for i, c in enumerate(mcases) if c[0] != 90 or len(common.sx_dump(c[1])) < 2600]
+    nx, xok, xlog = common.coq_crosscheck("C09", [mcases[i] for i in small], [outs[i] for i in small],
+                                          ctx.rng, sample=30 if ctx.quick() else 200)
     if not xok:
         ctx.violation("extraction cross-check failed: OCaml driver and vm_compute disagree",
                       {"log": xlog}, no_input=True)
@@ -958,6 +960,11 @@ def run(ctx):
         # kind == routes
         st["inputs"] += 1
         fly_m, tree_m, ca_m = o
+        if ["err", "Timeout"] in (res["fly"], res.get("tree_err"), res.get("deferred")):
+            st["impl_timeouts"] = st.get("impl_timeouts", 0) + 1
+            if fly_m[0] != 3:
+                ctx.notes.append("impl timed out (5 s) where the model terminates: %r %r" % (r["gtext"], w))
+            continue
         if fly_m[0] == 3 or tree_m[0] == 3:
             st["model_out_of_fuel"] += 1
             continue
@@ -1122,7 +1129,9 @@ def check_property(ctx, st, r, w, res, rep):
     # GLR with a single tree
     n = res.get("glr_n")
     if n is None:
-        if "glr_err" in res:
+        if "glr_err" in res and res["glr_err"][1] == "Timeout":
+            st["glr_timeouts"] = st.get("glr_timeouts", 0) + 1
+        elif "glr_err" in res:
             ctx.violation("LR accepts, GLR fails with %r" % (res["glr_err"],), rep, no_input=True, key="glr-fails")
     elif n == 1 and "glr" in res:
         st["glr_single"] += 1
